@@ -8,13 +8,18 @@ import (
 	eventbus "github.com/jilio/ebu"
 )
 
-//verif:entry property=C09 tier=both bounds="bus on the durable-streams store (real client library over the model server): K publishes through PublishContext, each with its own context that is cancelled right after that publish has returned (or, symbolically, kept alive); one record per publish, in order, decoding to the published value; no persistence error" cover="published" K_quick=3 K_thorough=4
+//verif:entry property=C09 tier=both bounds="bus on the durable-streams store (real client library over the model server): K publishes through PublishContext, each with its own context that is cancelled right after that publish has returned (or, symbolically, kept alive); optionally the acknowledgement of one append is lost (the server carried it out and a gateway answered 502); one record per publish, in order, decoding to the published value; a persistence error only for the lost acknowledgement" cover="published" K_quick=3 K_thorough=4
 func harnessC09DurablePublishes() {
 	K := vParam("K", 3)
 	st, err := New(vdsServer("c09"), "s", dsOpts()...)
 	vAssert(err == nil, "store-opens")
 	reported := 0
 	bus := eventbus.New(eventbus.WithStore(st), eventbus.WithPersistenceErrorHandler(func(ev any, t reflect.Type, err error) { reported++ }))
+	lost := vInt(-1, K-1) // the acknowledgement of this append is lost on the way back (the server has carried it out)
+	vmDSLostAck = -1
+	if lost >= 0 {
+		vmDSLostAck = vmDSAppends + lost
+	}
 	for i := 0; i < K; i++ {
 		ctx, cancel := context.WithCancel(bg)
 		eventbus.PublishContext(bus, ctx, evD{N: i + 1})
@@ -31,6 +36,11 @@ func harnessC09DurablePublishes() {
 		vAssert(json.Unmarshal(evs[i].Data, &d) == nil && d.N == i+1, "record-decodes-to-published-value")
 		vAssert(evs[i].Type == eventbus.EventType(evD{}), "record-type-is-EventType")
 	}
-	vAssert(reported == 0, "no-persistence-error-reported")
+	vmDSLostAck = -1
+	if lost < 0 {
+		vAssert(reported == 0, "no-persistence-error-reported")
+	} else {
+		vAssert(reported == 1, "lost-acknowledgement-reported-once")
+	}
 	vCover("published")
 }
